@@ -31,6 +31,10 @@ type Obligation struct {
 	Model  string
 	Replayed   bool
 	ReplayNote string
+	ReplaySrc  string
+	BatchSMT   string // query for the conjunction of a group of goals sharing one path (tried first)
+	goalTerm   *Term
+	batchDone  bool
 }
 
 type Frame struct {
@@ -200,6 +204,15 @@ type Exec struct {
 	pureDepth int
 	sink      *querySink
 	pol       int // polarity of the clause being evaluated: +1 goal, -1 hypothesis, 0 unknown
+	paramVals []Value
+	addrOf    map[string]*addrInfo
+}
+
+func posOf(in ssa.Instruction) token.Pos {
+	if in == nil {
+		return token.NoPos
+	}
+	return in.Pos()
 }
 
 func (e *Exec) withPol(p int, f func()) {
@@ -467,7 +480,29 @@ func (e *Exec) emit(s *State, kind string, goal *Term, pos token.Pos) {
 		return
 	}
 	ob.SMT, ob.SMTLight = e.buildQuery(s, []*Term{e.c.Not(goal)})
+	ob.goalTerm = goal
 	e.obls = append(e.obls, ob)
+}
+
+// batch gives the obligations emitted since index |from| one shared query for their conjunction: when it
+// is unsat every member is discharged at once; otherwise the members are decided individually.
+func (e *Exec) batch(s *State, from int) {
+	var goals []*Term
+	var members []*Obligation
+	for _, o := range e.obls[from:] {
+		if o.Probe || o.Trivial || o.goalTerm == nil {
+			continue
+		}
+		goals = append(goals, o.goalTerm)
+		members = append(members, o)
+	}
+	if len(members) < 3 {
+		return
+	}
+	q, _ := e.buildQuery(s, []*Term{e.c.Not(e.c.And(goals...))})
+	for _, o := range members {
+		o.BatchSMT = q
+	}
 }
 
 // emitProbe records a satisfiability probe (expected sat) for vacuity detection.
